@@ -116,3 +116,157 @@ Theorem interpolant_is_line : forall x0 y0 x1 y1 t, (x0 < x1)%Q -> (x0 <= t <= x
   Q2R (pl_eval ((x0, y0) :: (x1, y1) :: nil) t) = lin (Q2R x0) (Q2R y0) (Q2R x1) (Q2R y1) (Q2R t).
 Proof. exact pl_eval_is_lin. Qed.
 Print Assumptions interpolant_is_line.
+
+(* ================= T2 glue with C01 / C03 / C09: stability of landscapes (coq/Proofs/LandscapeStabP.v) ================= *)
+From Coq Require Import Qminmax.
+From Persim Require Lib.Kth Spec.PartialMatching Spec.BottleneckS Spec.LandscapeS Spec.LandArithS Model.LandArithM
+  Model.SweepM Model.BneckM Proofs.MetricInstP Proofs.BneckOracleP Proofs.LandscapeStabP.
+Open Scope Q_scope.
+
+(* for EVERY partial matching m of two finite diagrams (any points, no sign or order hypothesis), every depth k >= 1 and
+   every t: |lambda_k(D)(t) - lambda_k(D')(t)| <= the largest cost m pays (L-infinity between matched points, (d-b)/2
+   for an unmatched one); lambda_k = land = k-th largest tent (Lib/PL.v) *)
+Theorem landscape_stability_any_matching : forall (D D' : list bar) m, PartialMatching.valid_for D D' m ->
+  forall (k : nat) (t : Q), (1 <= k)%nat -> Qabs (land D k t - land D' k t) <= BottleneckS.bcost D D' m.
+Proof. exact LandscapeStabP.landscape_stability_matching. Qed.
+Print Assumptions landscape_stability_any_matching.
+
+(* the clause of the property: the sup norm of the difference of two diagrams' landscapes never exceeds their bottleneck
+   distance (is_bottleneck = the minimum over all partial matchings of the largest cost, Spec/BottleneckS.v) *)
+Theorem landscape_stability : forall (D D' : list bar) v, BottleneckS.is_bottleneck D D' v ->
+  forall (k : nat) (t : Q), (1 <= k)%nat -> Qabs (land D k t - land D' k t) <= v.
+Proof. exact LandscapeStabP.landscape_stability_P. Qed.
+Print Assumptions landscape_stability.
+
+(* ... on the models: L, L' the sweeps (C03, shortcut off) of two diagrams of positive-length bars; the C09 model's
+   difference L - L' evaluates (both variants), is pointwise the difference of the k-th largest tents, and its sup norm
+   (sup_spec, and whatever number exact_sup_norm returns) is at most the bottleneck distance *)
+Theorem exact_landscape_stability : forall variant deg (D D' : list bar) L L' v,
+  (forall a, In a D -> fst a < snd a) -> (forall a, In a D' -> fst a < snd a) ->
+  SweepM.sweep false D = Some L -> SweepM.sweep false D' = Some L' -> BottleneckS.is_bottleneck D D' v ->
+  exists R, LandArithM.e_sub variant (LandArithM.mkE deg L) (LandArithM.mkE deg L') = LandArithM.Ok R /\
+    (forall k t, LandArithS.evalL (LandArithM.e_cp R) k t == land D (S k) t - land D' (S k) t) /\
+    (forall k t, Qabs (LandArithS.evalL (LandArithM.e_cp R) k t) <= v) /\
+    sup_spec (LandArithM.e_cp R) <= v /\
+    (forall s, exact_sup_norm (LandArithM.e_cp R) = Some s -> s <= v).
+Proof. exact LandscapeStabP.exact_landscape_stability_P. Qed.
+Print Assumptions exact_landscape_stability.
+
+(* ... hence at most the number the bottleneck model (C01) returns, for every maximum-matching routine *)
+Theorem exact_landscape_stability_model : forall oracle variant deg (D D' : list bar) L L',
+  BneckM.max_matching_oracle oracle ->
+  (forall a, In a D -> fst a < snd a) -> (forall a, In a D' -> fst a < snd a) ->
+  SweepM.sweep false D = Some L -> SweepM.sweep false D' = Some L' ->
+  exists R w, LandArithM.e_sub variant (LandArithM.mkE deg L) (LandArithM.mkE deg L') = LandArithM.Ok R /\
+    BneckM.bottleneck_model oracle (map MetricInstP.liftQ D) (map MetricInstP.liftQ D') = Some (BneckM.CFin w) /\
+    BottleneckS.is_bottleneck D D' w /\
+    sup_spec (LandArithM.e_cp R) <= w /\
+    (forall s, exact_sup_norm (LandArithM.e_cp R) = Some s -> s <= w).
+Proof. exact LandscapeStabP.exact_landscape_stability_model_P. Qed.
+Print Assumptions exact_landscape_stability_model.
+
+(* the sup norm of the C09 model's sum / difference is at most the sum of the sup norms *)
+Theorem sup_norm_triangle : forall variant A B,
+  LandArithS.wfL (LandArithM.e_cp A) -> LandArithS.wfL (LandArithM.e_cp B) -> LandArithM.e_deg A = LandArithM.e_deg B ->
+  (exists R, LandArithM.e_add variant A B = LandArithM.Ok R /\
+     sup_spec (LandArithM.e_cp R) <= sup_spec (LandArithM.e_cp A) + sup_spec (LandArithM.e_cp B)) /\
+  (exists R, LandArithM.e_sub variant A B = LandArithM.Ok R /\
+     sup_spec (LandArithM.e_cp R) <= sup_spec (LandArithM.e_cp A) + sup_spec (LandArithM.e_cp B)).
+Proof. exact LandscapeStabP.sup_norm_triangle_both. Qed.
+Print Assumptions sup_norm_triangle.
+
+(* non-vacuity.  D = {(0,4),(1,3)}, D' = {(0,3)}: the bottleneck distance is 1 (the brute-force maximum-matching routine of
+   C01 run inside Coq), the hypotheses of exact_landscape_stability hold, the difference evaluates, exact_sup_norm returns
+   1: the bound is attained *)
+Example landscape_stability_instance :
+  let D := [(0, 4); (1, 3)] in let D' := ((0, 3) :: nil) in
+  BottleneckS.is_bottleneck D D' 1 /\
+  (forall a, In a D -> fst a < snd a) /\ (forall a, In a D' -> fst a < snd a) /\
+  match SweepM.sweep false D, SweepM.sweep false D' with
+  | Some L, Some L' =>
+      match LandArithM.e_sub LandArithM.Fixed (LandArithM.mkE 1 L) (LandArithM.mkE 1 L') with
+      | LandArithM.Ok R => match exact_sup_norm (LandArithM.e_cp R) with Some s => Qeq_bool s 1 | None => false end
+      | _ => false end
+  | _, _ => false end = true /\
+  Qabs (land D 2 2 - land D' 2 2) == 1.
+Proof. cbv zeta. split; [|split; [|split; [|split]]].
+  - assert (W : forall S : list (Q * Q), (forall p, In p S -> Qle_bool (fst p) (snd p) = true) -> BottleneckS.wfdgm S).
+    { intros S H p Hp. apply Qle_bool_iff. apply H; auto. }
+    destruct (MetricInstP.bn_model_value BneckOracleP.brute_oracle BneckOracleP.max_matching_oracle_exists [(0, 4); (1, 3)] ((0, 3) :: nil)) as [_ I].
+    + apply W. intros p H; simpl in H; repeat (destruct H as [H|H]; [subst p; reflexivity|]); contradiction.
+    + apply W. intros p H; simpl in H; repeat (destruct H as [H|H]; [subst p; reflexivity|]); contradiction.
+    + assert (E : MetricInstP.bn_model BneckOracleP.brute_oracle [(0, 4); (1, 3)] ((0, 3) :: nil) = 2 # 2) by (vm_compute; reflexivity).
+      rewrite E in I. assert (H : 1 == 2 # 2) by reflexivity. destruct I as [(m & V & Em) LB]. split.
+      * exists m. split; [exact V|]. rewrite Em. symmetry. exact H.
+      * intros m' V'. apply Qle_trans with (2 # 2); [apply Qle_bool_iff; reflexivity|exact (LB m' V')].
+  - intros a H; simpl in H; repeat (destruct H as [H|H]; [subst a; reflexivity|]); contradiction.
+  - intros a H; simpl in H; repeat (destruct H as [H|H]; [subst a; reflexivity|]); contradiction.
+  - vm_compute. reflexivity.
+  - vm_compute. reflexivity. Qed.
+
+(* ... and at every REAL abscissa: kthR = k-th largest entry counted with multiplicity (Proofs/KthReal.v, the reading
+   C03.sweep_is_kth_largest_tent_at_every_real_t uses), so the bound is on the sup over all real t *)
+From Persim Require Spec.LandscapeRealS Proofs.KthReal Proofs.LandscapeStabR.
+Theorem landscape_stability_every_real_t : forall (D D' : list bar) v, BottleneckS.is_bottleneck D D' v ->
+  forall (k : nat) (t : R), (1 <= k)%nat ->
+    (Rabs (KthReal.kthR (map (fun a => Rmax 0 (Rmin (t - Q2R (fst a)) (Q2R (snd a) - t))) D) k
+           - KthReal.kthR (map (fun a => Rmax 0 (Rmin (t - Q2R (fst a)) (Q2R (snd a) - t))) D') k) <= Q2R v)%R.
+Proof. exact LandscapeStabR.landscape_stability_R. Qed.
+Print Assumptions landscape_stability_every_real_t.
+
+(* the critical pairs the sweep (C03) returns for two diagrams of positive-length bars, read as piecewise-linear functions
+   of a real abscissa (pl_evalR, Spec/LandscapeRealS.v), differ at every depth and every real t by at most the bottleneck
+   distance *)
+Theorem sweep_stability_every_real_t : forall (D D' : list bar) L L' v,
+  (forall a, In a D -> fst a < snd a) -> (forall a, In a D' -> fst a < snd a) ->
+  SweepM.sweep false D = Some L -> SweepM.sweep false D' = Some L' -> BottleneckS.is_bottleneck D D' v ->
+  forall (k : nat) (t : R), (1 <= k)%nat ->
+    (Rabs (LandscapeRealS.pl_evalR (map LandscapeRealS.rp (nth (k - 1) L nil)) t
+           - LandscapeRealS.pl_evalR (map LandscapeRealS.rp (nth (k - 1) L' nil)) t) <= Q2R v)%R.
+Proof. exact LandscapeStabR.sweep_stability_R. Qed.
+Print Assumptions sweep_stability_every_real_t.
+(* non-vacuity of the two theorems above: their hypotheses are those of exact_landscape_stability, satisfied by
+   landscape_stability_instance (D = {(0,4),(1,3)}, D' = {(0,3)}, v = 1) *)
+
+(* T2: the sup norm is a bound at every REAL abscissa too: for EVERY list of breakpoint lists (no hypothesis), every depth
+   and every real t, the piecewise-linear reading pl_evalR is at most sup_spec in absolute value (with
+   sup_norm_landscape_is_sup, where the value is attained at a breakpoint, sup_spec is the supremum over the reals) *)
+From Persim Require Proofs.LandscapeSupR.
+Theorem sup_norm_bounds_every_real_t : forall (L : landscape) (k : nat) (t : R),
+  (Rabs (LandscapeRealS.pl_evalR (map LandscapeRealS.rp (nth k L nil)) t) <= Q2R (sup_spec L))%R.
+Proof. exact LandscapeSupR.sup_spec_bounds_evalR. Qed.
+Print Assumptions sup_norm_bounds_every_real_t.
+
+(* the C09 model's difference of the sweeps of two diagrams, read at a real abscissa, is at most the bottleneck distance *)
+Theorem exact_landscape_stability_every_real_t : forall variant deg (D D' : list bar) L L' v,
+  (forall a, In a D -> fst a < snd a) -> (forall a, In a D' -> fst a < snd a) ->
+  SweepM.sweep false D = Some L -> SweepM.sweep false D' = Some L' -> BottleneckS.is_bottleneck D D' v ->
+  exists Df, LandArithM.e_sub variant (LandArithM.mkE deg L) (LandArithM.mkE deg L') = LandArithM.Ok Df /\
+    forall (k : nat) (t : R),
+      (Rabs (LandscapeRealS.pl_evalR (map LandscapeRealS.rp (nth k (LandArithM.e_cp Df) nil)) t) <= Q2R v)%R.
+Proof. exact LandscapeSupR.exact_difference_sup_R. Qed.
+Print Assumptions exact_landscape_stability_every_real_t.
+
+(* end to end through the public entry points: PersLandscapeExact(dgms, h) and PersLandscapeExact(dgms', h') (C03 model,
+   one trailing infinite bar dropped, positive-length finite bars D, D') both return; their difference (C09 model)
+   evaluates; bottleneck (C01 model, any maximum-matching routine) returns the bottleneck distance w of D and D'; and the
+   sup norm of the difference (C10 model) is at most w *)
+Theorem exact_landscape_entry_stability : forall oracle variant deg dgms h dg (D : list bar) dgms' h' dg' (D' : list bar),
+  BneckM.max_matching_oracle oracle ->
+  nth_error dgms h = Some dg -> SweepM.finite_bars (SweepM.strip_trailing_inf dg) = Some D -> (forall a, In a D -> fst a < snd a) ->
+  nth_error dgms' h' = Some dg' -> SweepM.finite_bars (SweepM.strip_trailing_inf dg') = Some D' -> (forall a, In a D' -> fst a < snd a) ->
+  exists L L' Df w,
+    SweepM.exact_landscape false true dgms h = SweepM.Ok L /\ SweepM.exact_landscape false true dgms' h' = SweepM.Ok L' /\
+    LandArithM.e_sub variant (LandArithM.mkE deg L) (LandArithM.mkE deg L') = LandArithM.Ok Df /\
+    BneckM.bottleneck_model oracle (map MetricInstP.liftQ D) (map MetricInstP.liftQ D') = Some (BneckM.CFin w) /\
+    BottleneckS.is_bottleneck D D' w /\
+    (forall k t, LandArithS.evalL (LandArithM.e_cp Df) k t == land D (S k) t - land D' (S k) t) /\
+    sup_spec (LandArithM.e_cp Df) <= w /\
+    (forall s, exact_sup_norm (LandArithM.e_cp Df) = Some s -> s <= w).
+Proof. exact LandscapeStabP.exact_landscape_entry_stability_P. Qed.
+Print Assumptions exact_landscape_entry_stability.
+
+Example entry_stability_hyp_satisfiable :
+  nth_error (((0, Some 2) :: nil) :: ((0, Some 4) :: (1, Some 3) :: (0, None) :: nil) :: nil) 1 = Some ((0, Some 4) :: (1, Some 3) :: (0, None) :: nil) /\
+  SweepM.finite_bars (SweepM.strip_trailing_inf ((0, Some 4) :: (1, Some 3) :: (0, None) :: nil)) = Some ((0, 4) :: (1, 3) :: nil).
+Proof. split; reflexivity. Qed.
